@@ -54,6 +54,10 @@ cell (dict) — "r", "c" (first column for mulrk), "xf" (default 0) plus:
              "no_string": True               omit the STRING record of a string result (malformed)
   {"k": "blank"}                                    BLANK   (0x0201)
   {"k": "raw", "typ": t, "body": bytes}             any record, verbatim
+  {"k": "sub", "bof": bytes, "recs": [(typ, body, [cont, ...]), ...]}   a substream NESTED in the sheet ([MS-XLS]
+             2.1.7.20.5 OBJECTS -> CHART): BOF (body "bof"), the records, each followed by one CONTINUE per element of
+             its third component, EOF; see chart_sub for the shape Excel writes for an embedded chart
+  {"k": "merge", "regs": [(row_first, row_last, col_first, col_last), ...]}   one MERGECELLS record, at this place
 opts (dict): "cfb": kwargs for cfb_wrap (version, shuffle, …)   "stream_name": "Workbook" (default) | "Book"
              "sst_cut": None | int (max SST/CONTINUE body, >= 16; cuts fall between strings or inside characters;
                         with dict entries the limit also forces cuts inside rgRun / ExtRst)
@@ -180,6 +184,15 @@ def cell_records(c):
     k = c["k"]
     if k == "raw":
         return [(c["typ"], bytes(c["body"]))]
+    if k == "sub":
+        out = [(0x0809, bytes(c["bof"]))]
+        for t, b, conts in c["recs"]:
+            out.append((t, bytes(b)))
+            out += [(0x003C, bytes(x)) for x in conts]
+        return out + [(0x000A, b"")]
+    if k == "merge":
+        regs = c["regs"]
+        return [(0x00E5, struct.pack("<H", len(regs)) + b"".join(struct.pack("<HHHH", *r) for r in regs))]
     head = struct.pack("<HHH", c["r"], c["c"], c.get("xf", 0))
     if k == "number":
         bits = c["bits"] if "bits" in c else f64_bits(c["v"])
@@ -237,14 +250,88 @@ def ptg_exp(row, col):
 
 def cell_positions(c):
     k = c["k"]
-    if k == "raw":
+    if k in ("raw", "sub", "merge"):
         return []
     if k == "mulrk":
         return [(c["r"], c["c"] + i) for i in range(len(c["rks"]))]
     return [(c["r"], c["c"])]
 
+def bof_body(dt):
+    return struct.pack("<HHHHII", 0x0600, dt, 0x0DBB, 0x07CC, 0, 0x0306)
 def bof(dt):
-    return rec(0x0809, struct.pack("<HHHHII", 0x0600, dt, 0x0DBB, 0x07CC, 0, 0x0306))
+    return rec(0x0809, bof_body(dt))
+
+def chart_sub(rng, positions=(), exotic=0.3, nest=True):
+    """{"k": "sub", ...}: the chart substream of an embedded chart object as Excel 97-2003 writes it inside
+    a worksheet substream ([MS-XLS] 2.1.7.20.5 CHART = BOF CHARTSHEETCONTENT): chart records, then the
+    series cache SERIESDATA = Dimensions 3(SIIndex *(Number / BoolErr / Blank / Label)) whose records are
+    addressed (point, series) - i.e. like the cells A1, A2, B1 ... of a sheet -, then EOF.  `positions`:
+    cell positions of the enclosing sheet; most cache records are put on them so that a reader which
+    takes them for cells of the sheet overwrites real values.  With probability `exotic` the substream
+    also holds records no chart has but nothing forbids inside a nested substream (RK, MULRK, LABELSST,
+    FORMULA + STRING, SHRFMLA, MERGECELLS, records followed by CONTINUE records, with `nest` a further
+    BOF ... EOF pair): none of them belongs to the sheet."""
+    positions = list(positions)
+    def pos():
+        if positions and rng.random() < 0.8:
+            return rng.choice(positions)
+        return (rng.randrange(0, 6), rng.randrange(0, 4))
+    def head(p, xf=0):
+        return struct.pack("<HHH", p[0], p[1], xf)
+    def cache_cell():
+        p, k = pos(), rng.random()
+        if k < 0.45:
+            return (0x0203, head(p) + struct.pack("<d", float(rng.randrange(-50, 1000))), [])
+        if k < 0.75:
+            u = [rng.choice([0x61, 0x62, 0x7A, 0xE9, 0x20AC]) for _ in range(rng.randrange(0, 5))]
+            return (0x0204, head(p) + xl_unicode(u, _auto_wide(u, None)), [])
+        if k < 0.9:
+            return (0x0205, head(p) + (bytes([rng.randrange(2), 0]) if rng.random() < 0.5 else bytes([rng.choice([0x07, 0x2A, 0x0F]), 1])), [])
+        return (0x0201, head(p), [])
+    recs = [(0x1001, struct.pack("<H", 0), []), (0x1002, struct.pack("<iiii", 0, 0, rng.randrange(1 << 20), rng.randrange(1 << 20)), []),
+            (0x1033, b"", [])]
+    for _ in range(rng.randrange(0, 3)):        # Series … (bodies opaque to every spreadsheet reader)
+        recs += [(0x1003, struct.pack("<HHHHHH", 1, 1, 2, 2, 1, 0), []), (0x1033, b"", []),
+                 (0x1051, bytes([rng.randrange(4), 1, 0, 0, 0, 0, 0, 0]), []), (0x1034, b"", [])]
+    recs.append((0x1034, b"", []))
+    recs.append((0x0200, struct.pack("<IIHHH", 0, rng.randrange(1, 6), 0, rng.randrange(1, 4), 0), []))
+    for si in (1, 2, 3):
+        recs.append((0x1065, struct.pack("<H", si), []))
+        recs += [cache_cell() for _ in range(rng.choice([0, 1, 2, 2, 3, 5]))]
+    if rng.random() < exotic:
+        extra = []
+        for _ in range(rng.randrange(1, 5)):
+            p, k = pos(), rng.randrange(9)
+            if k == 0:
+                extra.append((0x027E, struct.pack("<HHHI", p[0], p[1], 0, rk_int(rng.randrange(-9, 99))), []))
+            elif k == 1:
+                n = rng.choice([1, 2, 3])
+                c0 = min(p[1], 256 - n)
+                extra.append((0x00BD, struct.pack("<HH", p[0], c0) + b"".join(struct.pack("<HI", 0, rk_int(7 + i)) for i in range(n)) +
+                              struct.pack("<H", c0 + n - 1), []))
+            elif k == 2:
+                extra.append((0x00FD, head(p) + struct.pack("<I", rng.randrange(4)), []))
+            elif k == 3:
+                f = {"k": "formula", "r": p[0], "c": p[1], "cached": rng.choice([("num", f64_bits(3.5)), ("str", [0x78, 0x79], False), ("bool", True)])}
+                extra += [(t, b, []) for t, b in cell_records(f)]
+            elif k == 4:
+                extra.append((0x0006, head(p) + formula_value(("num", f64_bits(1.0))) + struct.pack("<HI", 8, 0) +
+                              struct.pack("<H", 5) + ptg_exp(p[0], p[1]), []))
+                extra.append((0x04BC, shrfmla_body(p[0], min(p[0] + 1, 65535), p[1], p[1]), []))
+            elif k == 5:
+                extra.append((0x00E5, struct.pack("<HHHHH", 1, p[0], min(p[0] + 1, 65535), p[1], min(p[1] + 1, 255)), []))
+            elif k == 6:
+                extra.append((rng.choice([0x00EC, 0x01B6, 0x1025, 0x0207]), bytes(rng.getrandbits(8) for _ in range(rng.choice([3, 8, 20]))),
+                              [bytes(rng.getrandbits(8) for _ in range(rng.choice([1, 2, 9]))) for _ in range(rng.choice([1, 2, 3]))]))
+            elif k == 7 and nest:
+                inner = chart_sub(rng, positions, exotic=0.2, nest=False)
+                extra += [(0x0809, inner["bof"], [])] + inner["recs"] + [(0x000A, b"", [])]
+            else:
+                extra.append((0x0200, struct.pack("<IIHHH", 0, 9, 0, 9, 0), []))
+        at = rng.randrange(len(recs) + 1)
+        recs[at:at] = extra
+    return {"k": "sub", "bof": bof_body(0x0020) if rng.random() < 0.8 else bytes(rng.getrandbits(8) for _ in range(rng.choice([0, 4, 8, 16]))),
+            "recs": recs}
 
 def dimensions_record(spec, cells):
     if spec == "none":
